@@ -105,10 +105,22 @@ func nwRun(in *nwInput, r *rand.Rand, sink *CaseSink, replay bool) {
 			sch.Hook(p)
 		}
 	}
+	inPut := make([]bool, nt)
+	inFreeq := make([]bool, nt)
 	skiplist.VerifYieldHook = func(p int) {
-		// only the item store's publish CAS is a scheduling point; the snapshot lists etc. are not used here
+		// the barrier inserts a terminated session into its free queue (a skiplist) between these labels
+		if p == skiplist.VerifPtRelLatched || p == skiplist.VerifPtRelQueued {
+			if tid, ok := sch.Tid(); ok {
+				inFreeq[tid] = p == skiplist.VerifPtRelLatched
+			}
+			return
+		}
+		// only the item store's publish CAS inside Put is a scheduling point (with user-managed memory
+		// the barrier's free queue is a skiplist too and passes the same label)
 		if p == skiplist.VerifPtInsPub {
-			sch.Hook(p)
+			if tid, ok := sch.Tid(); ok && inPut[tid] && !inFreeq[tid] {
+				sch.Hook(p)
+			}
 		}
 	}
 	defer func() { nitro.VerifYieldHook = counter; skiplist.VerifYieldHook = nil }()
@@ -120,7 +132,19 @@ func nwRun(in *nwInput, r *rand.Rand, sink *CaseSink, replay bool) {
 	}
 	var hist []hop
 	step := 0
-	sch.OnStep = func(tid, label int) { step++ }
+	sch.OnStep = func(tid, label int) {
+		step++
+		if os.Getenv("VERIF_DEBUG") != "" {
+			var parts []string
+			n, _ := st.HeadNode().VerifNext(0)
+			for n != st.TailNode() && n != nil {
+				nx, del := n.VerifNext(0)
+				parts = append(parts, fmt.Sprintf("%q/%d/del=%v/lvl=%d", nitro.VerifItemOf(n).Bytes(), nitro.VerifItemOf(n).VerifBornSn(), del, n.Level()))
+				n = nx
+			}
+			fmt.Fprintf(os.Stderr, "step %d tid %d label %d chain %v\n", step, tid, label, parts)
+		}
+	}
 	for t := 0; t < nt; t++ {
 		t := t
 		w := e.ws[t%len(e.ws)]
@@ -134,7 +158,9 @@ func nwRun(in *nwInput, r *rand.Rand, sink *CaseSink, replay bool) {
 				bs := i2b(op.Bs)
 				switch op.Op {
 				case "put":
+					inPut[t] = true
 					n := w.Put2(bs)
+					inPut[t] = false
 					if n != nil {
 						ids[n] = nextID
 						nextID++
